@@ -104,7 +104,8 @@ theorem incU64_out_dup {ε} {x : Nat} {site : String} {X : Res ε Nat} (h : (inc
 def HcrOut' (a : AEAD) (s : NetcodeServer) (addr : Addr) (v : Bytes) (pid expire : Nat) (xnonce data : Bytes)
     (R : NetcodeServer.SRes) : Prop :=
   HcrOut a s addr v pid expire xnonce data R ∨
-    ((∃ m, R = .panic m) ∧ ¬ (s.globalSequence < U64_MAX ∧ s.challengeSequence < U64_MAX))
+    ((∃ m, R = .panic m) ∧ (∃ t, Accepted a s addr v pid expire xnonce data t) ∧
+      ¬ (s.globalSequence < U64_MAX ∧ s.challengeSequence < U64_MAX))
 
 /-- `handle_connection_request`, symbolically executed.  Needs: the token blob is long enough to carry a MAC (true of
     every decoded request: 1024 bytes).  The only way to unwind is a full `u64` counter. -/
@@ -184,11 +185,11 @@ theorem hcr_spec (a : AEAD) (s : NetcodeServer) (addr : Addr) (v : Bytes) (pid e
               rcases incU64_out hinc with rfl | ⟨rfl, hn⟩
               · simp only [bind_ok', pure_eq']
                 exact Or.inl (.denied t s out hacc (Or.inl rfl) hfull hen)
-              · exact Or.inr ⟨⟨_, rfl⟩, fun h => hn h.1⟩
+              · exact Or.inr ⟨⟨_, rfl⟩, ⟨t, hacc⟩, fun h => hn h.1⟩
           · rename_i hfull
             generalize hinc : (incU64 s.challengeSequence _ : Res (NetcodeError × NetcodeServer) Nat) = X
             rcases incU64_out hinc with rfl | ⟨rfl, hn⟩
-            case inr => exact Or.inr ⟨⟨_, rfl⟩, fun h => hn h.2⟩
+            case inr => exact Or.inr ⟨⟨_, rfl⟩, ⟨t, hacc⟩, fun h => hn h.2⟩
             simp only [bind_ok']
             cases hgen : ChallengeToken.generate a t.clientId t.userData (s.challengeSequence + 1) s.challengeKey with
             | panic m => exact absurd hgen (generate_ne_panic _ _ _ _ _ _)
@@ -205,7 +206,7 @@ theorem hcr_spec (a : AEAD) (s : NetcodeServer) (addr : Addr) (v : Bytes) (pid e
                 rcases incU64_out hinc2 with rfl | ⟨rfl, hn⟩
                 · simp only [bind_ok', pure_eq']
                   exact Or.inl (.challenge t s pkt out hacc (Or.inl rfl) (by omega) hgen hen)
-                · exact Or.inr ⟨⟨_, rfl⟩, fun h => hn h.1⟩
+                · exact Or.inr ⟨⟨_, rfl⟩, ⟨t, hacc⟩, fun h => hn h.1⟩
         · rw [heq']
           simp only [hadr, decide_false, Bool.not_false, if_true]
           exact Or.inl .none
@@ -228,11 +229,11 @@ theorem hcr_spec (a : AEAD) (s : NetcodeServer) (addr : Addr) (v : Bytes) (pid e
             rcases incU64_out hinc with rfl | ⟨rfl, hn⟩
             · simp only [bind_ok', pure_eq']
               exact Or.inl (.denied t _ out hacc hstep hfull hen)
-            · exact Or.inr ⟨⟨_, rfl⟩, fun h => hn h.1⟩
+            · exact Or.inr ⟨⟨_, rfl⟩, ⟨t, hacc⟩, fun h => hn h.1⟩
         · rename_i hfull
           generalize hinc : (incU64 s.challengeSequence _ : Res (NetcodeError × NetcodeServer) Nat) = X
           rcases incU64_out hinc with rfl | ⟨rfl, hn⟩
-          case inr => exact Or.inr ⟨⟨_, rfl⟩, fun h => hn h.2⟩
+          case inr => exact Or.inr ⟨⟨_, rfl⟩, ⟨t, hacc⟩, fun h => hn h.2⟩
           simp only [bind_ok']
           cases hgen : ChallengeToken.generate a t.clientId t.userData (s.challengeSequence + 1) s.challengeKey with
           | panic m => exact absurd hgen (generate_ne_panic _ _ _ _ _ _)
@@ -249,7 +250,7 @@ theorem hcr_spec (a : AEAD) (s : NetcodeServer) (addr : Addr) (v : Bytes) (pid e
               rcases incU64_out hinc2 with rfl | ⟨rfl, hn⟩
               · simp only [bind_ok', pure_eq']
                 exact Or.inl (.challenge t _ pkt out hacc hstep (by omega) hgen hen)
-              · exact Or.inr ⟨⟨_, rfl⟩, fun h => hn h.1⟩
+              · exact Or.inr ⟨⟨_, rfl⟩, ⟨t, hacc⟩, fun h => hn h.1⟩
 
 theorem pendingSet_pendingSet (m : Pending) (ad : Addr) (x y : Connection) :
     pendingSet (pendingSet m ad x) ad y = pendingSet m ad y := by
@@ -476,7 +477,7 @@ theorem ppi_spec (a : AEAD) {s : NetcodeServer} (hi : ServerInv s) (addr : Addr)
             · obtain ⟨v', pi', e', x', d', hpk, _, _, _, hlen⟩ := hdd
               cases hpk
               rcases hcr_spec a { s with pendingClients := pendingSet s.pendingClients addr (touched p w' s.currentTime) }
-                addr v pid e x d (by rw [hlen]; decide) with hspec | ⟨⟨m, hm⟩, hn⟩
+                addr v pid e x d (by rw [hlen]; decide) with hspec | ⟨⟨m, hm⟩, _, hn⟩
               case inr => exact Or.inr ⟨⟨m, by rw [hm]⟩, hn⟩
               cases hR : NetcodeServer.handleConnectionRequest a
                   { s with pendingClients := pendingSet s.pendingClients addr (touched p w' s.currentTime) }
@@ -578,7 +579,7 @@ theorem ppi_spec (a : AEAD) {s : NetcodeServer} (hi : ServerInv s) (addr : Addr)
           obtain ⟨v, pid, e, x, d, hpk, hlen⟩ := decode_nokey_ok hdec
           subst hpk
           simp only
-          rcases hcr_spec a s addr v pid e x d (by rw [hlen]; decide) with hspec | ⟨⟨m, hm⟩, hn⟩
+          rcases hcr_spec a s addr v pid e x d (by rw [hlen]; decide) with hspec | ⟨⟨m, hm⟩, _, hn⟩
           case inr => exact Or.inr ⟨⟨m, by rw [hm]⟩, hn⟩
           cases hR : NetcodeServer.handleConnectionRequest a s addr v pid e x d with
           | ok rs =>
